@@ -167,7 +167,7 @@ fn handle_fn(repo: &str, req: &Value, global: &Value) -> Result<Value, String> {
     let impl_ty = req["impl"].as_str();
     let trait_name = req["trait"].as_str();
     let (_src, ast) = read_file(repo, file)?;
-    let (mut f, shell) = find_fn(&ast, impl_ty, trait_name, name).ok_or_else(|| {
+    let (mut f, mut shell) = find_fn(&ast, impl_ty, trait_name, name).ok_or_else(|| {
         format!(
             "lost anchor: function {}{} not found in {}",
             impl_ty.map(|s| format!("{}::", s)).unwrap_or_default(),
@@ -179,6 +179,9 @@ fn handle_fn(repo: &str, req: &Value, global: &Value) -> Result<Value, String> {
     let original = f.to_token_stream().to_string();
     let mut counts = Counts::new();
     let cfg = rules::Config::from_json(req, global)?;
+    if let Some(sh) = shell.as_mut() {
+        rules::apply_to_shell(sh, &cfg, &mut counts);
+    }
     let info = rules::apply_to_fn(&mut f, shell.as_ref(), &cfg, &mut counts)?;
     let text = printer::print_fn(&f, shell.as_ref(), &cfg, &info)?;
     Ok(json!({
